@@ -2,8 +2,9 @@
 import inspect
 import sys
 
-from tables.util import lstr
+from tables.util import lstr, lbool
 from tables.diagscan import LEVELS, diagnostic_calls
+from tables import scopescan
 
 NAME = "C15"
 
@@ -32,4 +33,35 @@ def tables():
         "/-- number of call sites per level found by the scan (reach of the scan, not used by theorems) -/",
         "def diagCallSites : List (String × Nat) := ["
         + ", ".join(f"({lstr(l)}, {per_level[l]})" for l in LEVELS) + "]",
+    ] + scope_tables()
+
+
+def scope_tables():
+    """Source facts about what can happen to the SystemExit of a fatal diagnostic and about which
+    file is current while a file's AST is analysed (see tables/scopescan.py)."""
+    scopes = scopescan.scopes()
+    if len(scopes) < 8 or not any(s["what"].endswith("DictChanges") for s in scopes):
+        raise ValueError("scope scan found implausibly few `with` blocks")
+    ids = [s["id"] for s in scopes]
+    if len(set(ids)) != len(ids):
+        raise ValueError("scope ids are not unique")
+    entries, callers = scopescan.analysis_entries()
+    if not entries:
+        raise ValueError("no analysis entry points found")
+
+    def q(t):
+        return "(" + ", ".join(lstr(x) for x in t) + ")"
+
+    return [
+        "/-- every `with` item and every `try` with a handler able to catch SystemExit in rattr/**.py: (id, kind, verdict);"
+        " id = file::function::spelling#ordinal -/",
+        "def scopes : List (String × String × String) := [\n  "
+        + ",\n  ".join(q((s["id"], s["kind"], s["verdict"])) for s in scopes) + "]",
+        "/-- calls that start the analysis of one file's AST, with the argument of the innermost lexically enclosing"
+        " `with enter_file(..)` (\"\" = none): (file, function, call, enter_file argument) -/",
+        "def analysisEntries : List (String × String × String × String) := [\n  " + ",\n  ".join(q(e) for e in entries) + "]",
+        "/-- calls of the functions that hold an entry without an enclosing enter_file (same shape) -/",
+        "def analysisEntryCallers : List (String × String × String × String) := [\n  " + ",\n  ".join(q(e) for e in callers) + "]",
+        "/-- does `enter_file` restore `current_file` when an exception leaves its block (yield guarded by try/finally)? -/",
+        f"def enterFileRestoresOnException : Bool := {lbool(scopescan.enter_file_restores_on_exception())}",
     ]
